@@ -135,6 +135,12 @@ func (h *hierarchy) mkSub(i int) *sub {
 	case 4:
 		s.label, parent, withRoot = "rsa cert<-J(ed25519)<-R2(rsa), root sent", h.J, true
 		leafKey = pki.LoadKey("rsa2048-1")
+		if (i/nShapes)%2 == 1 {
+			// a certificate the lenient parser accepts with a non-fatal remark (RSA key without NULL
+			// parameters): it is logged like any other and must decode like any other
+			s.label = "rsa cert with a parser-remark (spki without NULL)<-J(ed25519)<-R2(rsa), root sent"
+			leafKey = pki.LoadKey("rsa2048-1~nonull")
+		}
 	case 5:
 		s.label, parent, s.pre = "precert<-root, root omitted", h.R, true
 	case 6:
